@@ -7,7 +7,7 @@ import torch
 from hypothesis import strategies as st
 
 from vf.core import CaseResult, dtype_mode
-from vf.oracles import ks_statistic, ks_threshold, norm_cdf, norm_logpdf, quad_1d, gl_panels
+from vf.oracles import ks_statistic, ks_threshold, norm_cdf, norm_logpdf, quad_1d, gl_panels, cumulative_quad_1d
 
 PROPERTY = "C05"
 RULE = ("StandardNormal / DiagonalNormal / ConditionalDiagonalNormal (identity, Linear, MLP encoder) with event shapes [1], [2], "
@@ -21,7 +21,8 @@ RULE = ("StandardNormal / DiagonalNormal / ConditionalDiagonalNormal (identity, 
         "Gauss-Legendre rule. Sampling: KS per coordinate against the closed-form / cumulative-quadrature CDF (n=20000, "
         "p=1e-9), Bernoulli frequencies within 6 sigma, every sample has finite log_prob, per context row. mean(): documented "
         "shape and closed-form expectation; classes without a mean raise NoMeanException. Non-trivial: non-default parameters "
-        "or a multi-dimensional event shape.")
+        "or a multi-dimensional event shape. MADEMoG: 1-4 components, optionally narrow (unconstrained std lowered by 3 or 5); 1 feature: "
+        "samples also against the cumulative quadrature of exp(log_prob) itself.")
 ASSUMPTIONS = ["quadrature self-tested in setup; unresolved integrals are inconclusive, never pass/fail",
                "KS thresholds at p=1e-9 (DKW bound)"]
 EXPLANATION = "generated"
@@ -57,6 +58,7 @@ def _case(draw):
         c["custom_init"] = draw(st.booleans())
         c["perturb"] = draw(st.sampled_from([0.0, 0.3, 1.0]))
         c["rows"] = draw(st.integers(1, 3))
+        c["narrow"] = draw(st.sampled_from([0.0, 0.0, 3.0, 5.0]))
     if kind in ("boxuniform", "mg1"):
         c["D"] = 3 if kind == "mg1" else draw(st.integers(1, 4))
         c["low"] = draw(st.lists(st.sampled_from([-2.0, 0.0, 0.5, -10.0]), min_size=c["D"], max_size=c["D"]))
@@ -268,6 +270,12 @@ def run_case(case):
                 with torch.no_grad():
                     for p in d.parameters():
                         p.add_(torch.randn(p.shape, generator=g) * case["perturb"] * 0.5)
+            if case.get("narrow"):
+                # narrow components (as after fitting peaked data): lower the unconstrained-std outputs, so that the epsilon floor
+                # of the standard deviations matters
+                with torch.no_grad():
+                    d._made.final_layer.bias[2::3] -= case["narrow"]
+                res.labels.append("narrow_components")
             d.eval()
             rows = case["rows"] if case["ctx"] else 1
             ctx = torch.randn(rows, case["ctx"], generator=g) if case["ctx"] else None
@@ -335,6 +343,26 @@ def run_case(case):
             res.see_ratio(dks, thr)
             if dks > thr:
                 res.fail("samples_not_from_density", site, "context row %d of %d: first-coordinate KS distance %.4f > %.4f" % (r, rows, dks, thr), row=r, rows=rows)
+                return res
+            if F_ == 1:
+                # and against the density itself: CDF by cumulative quadrature of exp(log_prob), evaluated at the samples
+                xs = s[r, :, 0]
+                pad = 0.25 * (xs.max() - xs.min()) + 10 * float(sd.max())
+                aim = np.concatenate([mu + k * sd for k in (-8, -4, -2, -1, 0, 1, 2, 4, 8)])
+                grid = np.unique(np.concatenate([np.linspace(xs.min() - pad, xs.max() + pad, 2001), xs, aim]))
+                cdfv = cumulative_quad_1d(lambda z: np.exp(logp(z[:, None])), grid)
+                mass = cdfv[-1]
+                if not np.isfinite(mass) or abs(mass - 1) > 1e-3:
+                    res.inconclusive += 1
+                    res.labels.append("mass_outside_grid")
+                    return res
+                left = 0.5 * (1 - mass)
+                dks = ks_statistic(xs, lambda z: np.interp(z, grid, cdfv + left))
+                res.see_ratio(dks, thr)
+                res.labels.append("ks_vs_integrated_density")
+                if dks > thr:
+                    res.fail("samples_not_from_density", site, "context row %d of %d, %d components: KS distance between samples and the integrated exp(log_prob) "
+                             "is %.4f > %.4f" % (r, rows, C_, dks, thr), row=r, rows=rows, against="log_prob")
             return res
 
         # ------------------------------------------------------------------ uniforms
